@@ -23,6 +23,7 @@ def plan(tier, seed):
     specs = [{"mode": "random", "n": per, "rseed": seed * 1000 + i, "registry": i % 4 != 3} for i in range(14)]
     # BMC file-system layout: no pel_registry distribution, the message registry under /usr/share/phosphor-logging/pels
     specs.append({"mode": "random", "n": per, "rseed": seed * 1000 + 700, "registry": False, "bmc": "ok"})
+    specs.append({"mode": "cli", "n": 25 if tier == "quick" else 600, "rseed": seed * 1000 + 750})
     specs.append({"mode": "sweep", "rseed": seed * 1000 + 800, "reps": 1 if tier == "quick" else 25})
     specs.append({"mode": "sweep", "rseed": seed * 1000 + 801, "reps": 1 if tier == "quick" else 25, "registry": False})
     return specs
@@ -30,7 +31,8 @@ def plan(tier, seed):
 
 def minimums(tier):
     return {"SRC.entries": 10000, "src.callouts": 15000, "src.error_details": 1500, "src.procedure_descs_expected": 300,
-            "field.SRC.Hex Word": 50000, "field.SRC.Callout Section": 8000, "bmc.error_details": 80, "bmc.path_accesses": 2}
+            "field.SRC.Hex Word": 50000, "field.SRC.Callout Section": 8000, "bmc.error_details": 80, "bmc.path_accesses": 2,
+            "cli.mode_runs": 200, "cli.mode_runs_with_dominated_options": 130, "embedded-in-larger-stream": 500}
 
 
 KINDS = [("SS", 10), ("PS", 4), ("MT", 3), ("UNK", 3), ("UD", 1)]
@@ -50,6 +52,8 @@ def run(spec, ctx):
     def one(secs, creator, plugins=True):
         pel = pm.Pel(creator, pm.gen_ph(rng, u, creator), pm.gen_uh(rng, creator), secs)
         fidelity.run_case(pel, ctx, "C03", allow_plugins=plugins, reg=reg)
+    if spec["mode"] == "cli":
+        return fidelity.run_cli_modes(spec, ctx, "C03", rng, u, reg, KINDS)
     if spec["mode"] == "random":
         for _ in range(spec["n"]):
             plugins = rng.random() < 0.8
